@@ -426,10 +426,23 @@ def _slice(log, start):
     return log[start:]
 
 
+def _debug_loggers(o):
+    """(C03, additive) runtime configuration of the caller's process: the named loggers (e.g. the emitted library's top-level
+    package) are enabled for DEBUG before the client is created; records go to a NullHandler and do not propagate"""
+    import logging
+    for name in o.get("debug_loggers") or []:
+        lg = logging.getLogger(name)
+        if not any(isinstance(h, logging.NullHandler) for h in lg.handlers):
+            lg.addHandler(logging.NullHandler())
+        lg.propagate = False
+        lg.setLevel(logging.DEBUG)
+
+
 def op_grpc_session(o):
     """{"client": "pkg:Client", "transport": "pkg.services.x.transports:XGrpcTransport", "async": false,
         "script": {path: [behaviour…]}, "calls": [...], "trap_sleep": bool}"""
     import grpc
+    _debug_loggers(o)
     srv = GrpcLoopback(o.get("script"))
     kinds = []
     tmo = [] if o.get("record_timeouts") else None      # (C09) client-side per-invocation timeouts
@@ -551,6 +564,7 @@ def op_grpc_multi_session(o):
                {"do": "close", "name": "a"}]}
     Every step result of a call carries the records EACH server logged during that call."""
     import grpc
+    _debug_loggers(o)
     servers = {n: GrpcLoopback(None) for n in o["servers"]}
     clients = {}        # name -> (client, transport, channel)
     results = []
